@@ -42,6 +42,9 @@ type Item struct {
 	Snap  bool    `json:"snap,omitempty"`  // true: snapshot message, false: event message
 	State []int64 `json:"state,omitempty"` // snapshot contents
 	V     int64   `json:"v,omitempty"`     // event value
+	// Early: the instance received this recovery message BEFORE its OnLaunch (C03: the first message an incarnation handles
+	// is OnLaunch — preceded only by OnRestarted)
+	Early bool `json:"early,omitempty"`
 }
 
 type Res struct {
@@ -155,11 +158,14 @@ type recorder struct {
 	trace   []Item
 	counts  []int64
 	snapReq bool
+	// launchSeen: this instance has handled its OnLaunch
+	launchSeen bool
 }
 
 func (r *recorder) OnReceive(ctx vivid.ActorContext) {
 	switch m := ctx.Message().(type) {
 	case *vivid.OnLaunch:
+		r.launchSeen = true
 		select {
 		case r.env.launched <- r.gen:
 		default:
@@ -177,7 +183,7 @@ func (r *recorder) OnReceive(ctx vivid.ActorContext) {
 			num = ctx.StateChanged(m)
 		}
 		if replay {
-			r.trace = append(r.trace, Item{V: m.v})
+			r.trace = append(r.trace, Item{V: m.v, Early: !r.launchSeen})
 			r.counts = append(r.counts, int64(num))
 			return
 		}
@@ -208,7 +214,7 @@ func (r *recorder) OnReceive(ctx vivid.ActorContext) {
 		ctx.SaveSnapshot(&snapMsg{state: append([]int64{}, r.state...)})
 	case *snapMsg:
 		r.state = append([]int64{}, m.state...)
-		r.trace = append(r.trace, Item{Snap: true, State: append([]int64{}, m.state...)})
+		r.trace = append(r.trace, Item{Snap: true, State: append([]int64{}, m.state...), Early: !r.launchSeen})
 	case *crashMsg:
 		panic("c09 injected failure")
 	case *persistMsg:
@@ -707,6 +713,12 @@ func monitor(c *Case) (viol []vh.Violation) {
 			}
 			// replay: at most one snapshot, first; snapshot ++ replayed events = state; nothing recorded again
 			var rebuilt []int64
+			for j, it := range got.Trace {
+				if it.Early {
+					add(i, "C03:persist:replay-before-OnLaunch", fmt.Sprintf("the recovering instance handled recovery message #%d (snapshot=%v) before its OnLaunch", j, it.Snap), nil)
+					break
+				}
+			}
 			for j, it := range got.Trace {
 				if it.Snap {
 					if j != 0 {
